@@ -1159,7 +1159,13 @@ func genC02(c *Ctx) {
 		c.Emit("num.normalize", numNormalizeCase(genNormInput(c)))
 	}
 	for i := 0; i < c.N(2500, 100000); i++ {
-		c.Emit("num.amount", numAmountCase(genGnum(c)))
+		n := genGnum(c)
+		if r.IntN(30) == 0 {
+			// decimal exponents around the parser's bound of 1000
+			n.Exp = &gexp{Up: r.IntN(2) == 0, Sign: r.IntN(3), Digits: fmt.Sprint(994 + r.IntN(12))}
+			c.Count("num.amount.exponent-near-bound")
+		}
+		c.Emit("num.amount", numAmountCase(n))
 	}
 	for i := 0; i < c.N(5000, 300000); i++ {
 		special := 0
